@@ -103,6 +103,11 @@ bool splinetable<Alloc>::write_key(const char* key, const T& value){
 		//refer to section 4.1.2.1 then cfitsio's behavior of allowing long 
 		//keywords (not split by spaces or periods) at all is non-conforming anyway. 
 		for(size_t i=0; i<keylen-1; i++){
+			//a header card holds printable ASCII only; cfitsio stores a blank
+			//in place of anything else
+			if(key[i]<0x20 || key[i]>0x7e)
+				throw std::runtime_error("FITS header keywords must consist of printable "
+										 "ASCII characters");
 			if(key[i]=='=')
 				throw std::runtime_error("Standard (short) FITS header keywords must not "
 										 "contain '=' characters (key was '"+
@@ -127,6 +132,11 @@ bool splinetable<Alloc>::write_key(const char* key, const T& value){
 	std::string valuedata=ss.str();
 	if(valuedata.find('\0')!=std::string::npos) //it would end the stored C string early
 		throw std::runtime_error("Value contains a NUL character and cannot be stored as a FITS keyword");
+	for(char c : valuedata){ //likewise; the value would not come back as it was stored
+		if(c<0x20 || c>0x7e)
+			throw std::runtime_error("Value contains a character which cannot be stored in a "
+									 "FITS header (only printable ASCII characters can)");
+	}
 	size_t valuelen = valuedata.size() + 1;
 	//For normal (short) keys, we get up to 68 bytes of storage, but for longer keywords
 	//the 'HIERARCH Keyword Convention' kicks in and limits us further
